@@ -160,6 +160,8 @@ func C11(tier rt.Tier) int {
 	per := 30 * time.Second
 	if tier == rt.Quick {
 		runs = []cfg{
+			{name: "1key-very-deep", keys: []int{0}, vals: []string{"a", "b"}, levels: []int{0}, gc: true, depth: 13, c11: true, maxNoDup: 7},
+			{name: "2keys-very-deep", keys: []int{0, 4}, vals: []string{"a", "b"}, levels: []int{1}, gc: true, depth: 10, c11: true, maxNoDup: 6},
 			{name: "distinct-values-3keys", keys: []int{0, 2, 5}, vals: []string{"a", "b"}, levels: []int{0, 1, 64}, gc: true, rootOp: true, depth: 6, c11: true, maxNoDup: 4},
 			{name: "4keys", keys: []int{0, 1, 2, 4}, vals: []string{"a", "c"}, levels: []int{0, 64}, gc: true, rootOp: true, depth: 6, c11: true, maxNoDup: 4},
 			// release in one commit, identical re-creation in a later commit, GC passes anywhere (needs 8+ operations)
@@ -170,6 +172,8 @@ func C11(tier rt.Tier) int {
 	} else {
 		per = 8 * time.Minute
 		runs = []cfg{
+			{name: "1key-very-deep", keys: []int{0}, vals: []string{"a", "b"}, levels: []int{0, 1}, gc: true, depth: 16, c11: true, maxNoDup: 8},
+			{name: "2keys-very-deep", keys: []int{0, 4}, vals: []string{"a", "b"}, levels: []int{0, 1}, gc: true, depth: 12, c11: true, maxNoDup: 7},
 			{name: "distinct-values-3keys", keys: []int{0, 2, 5}, vals: []string{"a", "b"}, levels: []int{0, 1, 2, 64}, gc: true, rootOp: true, reload: true, depth: 9, c11: true, maxNoDup: 5},
 			{name: "5keys", keys: []int{0, 1, 2, 4, 5}, vals: []string{"a", "b"}, levels: []int{0, 1, 64}, gc: true, rootOp: true, depth: 8, c11: true, maxNoDup: 5},
 		}
@@ -180,6 +184,12 @@ func C11(tier rt.Tier) int {
 	if rt.Replay == nil || rt.Replay.Run == "width" {
 		// wide branches: up to 16 changed children of one branch in a single commit (the commit fans out over them)
 		wideCases(rep, tier, []int{1, 2}, true)
+	}
+	if rt.Replay == nil || rt.Replay.Run == "scale" {
+		scaleC11(rep, 700)
+		if tier == rt.Thorough {
+			scaleC11(rep, 4000)
+		}
 	}
 	rep.Set("dedup", haveDump)
 	rep.Set("rule", "BFS over all histories of {Update, delete, re-add of identical content (two values only), Root() at any time, Commit(level)+batch.Commit, DeleteNodes anywhere and repeatedly, reload}; after every batch commit and every DeleteNodes a trie reopened from just (root hash, weight) on the same storage must equal the model: total weight and, for every block, owner, value and a verifying proof; for EVERY prefix of the storage write log inside the last operation the last durably committed root must be recoverable the same way")
